@@ -116,6 +116,14 @@ func (c *oblCtx) checkPre(call *ast.CallExpr, fn *types.Func) {
 				if f.holds != "" && c.expandAliases(f.holds) == want {
 					found = true
 				}
+				// the condition may be stated on a local bound once to the expression (`idx := ta.Primary(); if idx >= 0`)
+				if f.holds != "" && !found {
+					if parts := strings.SplitN(f.holds, " ", 2); len(parts) == 2 {
+						if def := c.singleDefText(parts[0]); def != "" && c.expandAliases(def+" "+parts[1]) == want {
+							found = true
+						}
+					}
+				}
 			}
 			if found {
 				c.add("OBL-PRE", call, construct, VOK, "call site dominated by the condition "+want, true)
@@ -187,4 +195,32 @@ func (c *oblCtx) namedKindVia(e ast.Expr) (string, bool) {
 		}
 	}
 	return "", false
+}
+
+// singleDefText: the text of the only definition of the local called name in the current function ("" otherwise).
+func (c *oblCtx) singleDefText(name string) string {
+	if c.fn == nil || strings.ContainsAny(name, ".([") || c.reassigned(name) {
+		return ""
+	}
+	var def ast.Expr
+	n := 0
+	ast.Inspect(c.fn, func(x ast.Node) bool {
+		as, ok := x.(*ast.AssignStmt)
+		if !ok || len(as.Lhs) != len(as.Rhs) {
+			return true
+		}
+		for i, l := range as.Lhs {
+			if id := identOf(l); id != nil && id.Name == name {
+				if v, isVar := objOf(c.info(), id).(*types.Var); isVar && !v.IsField() {
+					n++
+					def = as.Rhs[i]
+				}
+			}
+		}
+		return true
+	})
+	if n != 1 || def == nil {
+		return ""
+	}
+	return es(def)
 }
